@@ -36,20 +36,21 @@ type OblResult struct {
 }
 
 type HarnessResult struct {
-	Name        string
-	Pkg         string
-	Paths       int
-	Aborted     int
-	Results     []OblResult
-	EngineErrs  []string
-	Funcs       map[string]int
-	Steps       int64
-	FeasQueries int
-	Seconds     float64
-	Stubs       map[string]string
-	Cfg         map[string]string
-	PathLimit   bool
-	Inputs      int
+	Name            string
+	Pkg             string
+	Paths           int
+	Aborted         int
+	Results         []OblResult
+	EngineErrs      []string
+	Funcs           map[string]int
+	Steps           int64
+	FeasQueries     int
+	Seconds         float64
+	Stubs           map[string]string
+	Cfg             map[string]string
+	PathLimit       bool
+	Inputs          int
+	NativeValidated bool
 }
 
 type RunOptions struct {
@@ -391,7 +392,9 @@ func (e *Engine) dischargePath(fn *ssa.Function, po *pathOutcome, pathNo int, w 
 			q := BuildQuery(x.ts, be, ob.ID, ob.Path, ob.Cond, x.inputs, verdict.Profile)
 			full := <-opts.Pool.Submit([]string{q.Script}, q.Vars, budgets)
 			r.Verdict = "unconfirmed"
-			if ob.Kind == "lemma" {
+			if ob.Kind == "range" {
+				r.Note += " tracked-range obligation of the algebraic model (engine-only: the bound is on intermediate values, not on inputs)"
+			} else if ob.Kind == "lemma" {
 				r.Model = full.Model
 				r.Note += " stage lemma refuted by the solver (engine-only obligation; confirmation is attempted through the end-to-end fallback harnesses)"
 			} else if full.Result == "sat" {
